@@ -49,8 +49,13 @@ pub struct Report {
     pub samples: Vec<Value>,
     pub extra: Map<String, Value>,
     pub assumptions: Vec<String>,
+    /// violations NOT listed in known_findings.txt (first 8 distinct ones kept for printing / replay files)
     pub violations: Vec<Violation>,
     pub violations_total: u64,
+    /// cases matching a `finding:` line of known_findings.txt: kept apart so that they can never crowd out an unlisted one
+    pub known_cases: Vec<Violation>,
+    pub known_total: u64,
+    known_keys: Option<Vec<String>>,
     pub caps_hit: Vec<String>,
     pub exhaustive: bool,
     pub required_classes: Vec<String>,
@@ -86,6 +91,9 @@ impl Report {
             assumptions: Vec::new(),
             violations: Vec::new(),
             violations_total: 0,
+            known_cases: Vec::new(),
+            known_total: 0,
+            known_keys: None,
             caps_hit: Vec::new(),
             exhaustive: true,
             required_classes: Vec::new(),
@@ -114,6 +122,16 @@ impl Report {
     }
     pub fn require_class(&mut self, c: &str) { self.required_classes.push(c.to_string()); }
     pub fn violate(&mut self, v: Violation) {
+        if self.known_keys.is_none() {
+            self.known_keys = Some(load_known_findings(&self.id));
+        }
+        if self.known_keys.as_ref().unwrap().iter().any(|k| v.key.contains(k.as_str())) {
+            self.known_total += 1;
+            if self.known_cases.len() < 8 && !self.known_cases.iter().any(|x| x.key == v.key && x.summary == v.summary) {
+                self.known_cases.push(v);
+            }
+            return;
+        }
         self.violations_total += 1;
         if self.violations.len() < 8 && !self.violations.iter().any(|x| x.key == v.key && x.summary == v.summary) {
             self.violations.push(v);
@@ -133,16 +151,8 @@ impl Report {
                 self.machinery(format!("declared class '{c}' has no member (vacuous enumeration)"));
             }
         }
-        let known = load_known_findings(&self.id);
-        let mut unlisted: Vec<&Violation> = Vec::new();
-        let mut listed: Vec<&Violation> = Vec::new();
-        for v in &self.violations {
-            if known.iter().any(|k| v.key.contains(k.as_str())) {
-                listed.push(v);
-            } else {
-                unlisted.push(v);
-            }
-        }
+        let unlisted: Vec<&Violation> = self.violations.iter().collect();
+        let listed: Vec<&Violation> = self.known_cases.iter().collect();
         let wall = self.start.elapsed().as_secs_f64();
         let mut coverage = Map::new();
         coverage.insert("evaluations".into(), json!(self.evaluations));
@@ -154,7 +164,7 @@ impl Report {
         coverage.insert("classes".into(), json!(self.classes));
         coverage.insert("distinct_outcomes".into(), json!(self.outcomes));
         coverage.insert("build_profile".into(), json!(self.profile));
-        coverage.insert("known_finding_cases".into(), json!(listed.len()));
+        coverage.insert("known_finding_cases".into(), json!(self.known_total));
         for (k, v) in &self.extra {
             coverage.insert(k.clone(), v.clone());
         }
@@ -167,7 +177,7 @@ impl Report {
             "assumptions": self.assumptions,
             "wall_s": wall,
             // cases listed in known_findings.txt are reported as KNOWN-FINDING lines and counted separately
-            "violations": self.violations_total.saturating_sub(listed.len() as u64),
+            "violations": self.violations_total,
             "machinery_errors": self.machinery_errors,
         });
         if let Some(dir) = std::path::Path::new(evidence_path).parent() {
@@ -208,8 +218,8 @@ impl Report {
             self.profile,
             self.evaluations,
             self.nontrivial,
-            self.violations_total.saturating_sub(listed.len() as u64),
-            listed.len(),
+            self.violations_total,
+            self.known_total,
             wall,
             self.exhaustive && self.caps_hit.is_empty()
         );
